@@ -231,8 +231,10 @@ def parseDNSSL (d : RawDNSSL) (maxInterval : Dur) : Option Plugin := do
   if hasDup d.names then none
   pure (.dnssl lifetime d.names)
 
-/-- `plugin.NewPREF64` lifetime: 3·max rounded up to a multiple of 8 s, capped -/
-def pref64Lifetime (maxInterval : Dur) : Dur :=
+/-- `plugin.NewPREF64` lifetime as the pinned source computed it: 3·(max truncated to whole
+    seconds) rounded up to a multiple of 8 s, capped (F-20: for a fractional `max_interval` this is
+    less than 3·max, e.g. 16 s for 5.5 s) -/
+def pref64LifetimeWholeSeconds (maxInterval : Dur) : Dur :=
   let maxLt := Gen.Plugin.maxPref64Lifetime
   if wholeSeconds maxInterval * 3 < wholeSeconds maxLt then
     let ls := wholeSeconds maxInterval * 3
@@ -240,6 +242,20 @@ def pref64Lifetime (maxInterval : Dur) : Dur :=
     let ls := if r > 0 then ls + (8 - r) else ls
     ls * second
   else maxLt
+
+/-- …and computed on the duration itself: 3·max rounded up to a multiple of 8 s, capped -/
+def pref64LifetimeDur (maxInterval : Dur) : Dur :=
+  let maxLt := Gen.Plugin.maxPref64Lifetime
+  let scaled := 3 * maxInterval
+  if scaled < maxLt then
+    let r := goMod scaled (8 * second)
+    if r > 0 then scaled + (8 * second - r) else scaled
+  else maxLt
+
+/-- `plugin.NewPREF64` lifetime, as the source has it (regenerated: `Gen.Plugin.pref64ScalesDuration`) -/
+def pref64Lifetime (maxInterval : Dur) : Dur :=
+  if Gen.Plugin.pref64ScalesDuration then pref64LifetimeDur maxInterval
+  else pref64LifetimeWholeSeconds maxInterval
 
 /-- `64:ff9b::/96` -/
 def defaultPref64 : Prefix := { addr := { valid := true, v4 := false, val := 0x0064ff9b000000000000000000000000 }, bits := 96 }
